@@ -127,6 +127,11 @@ fn char_to_partial_token<NumericTypes: EvalexprNumericTypes>(
     }
 }
 
+#[cfg(feature = "verif-hooks")]
+pub(crate) fn char_to_partial_token_view(c: char) -> PartialToken<DefaultNumericTypes> {
+    char_to_partial_token(c)
+}
+
 impl<NumericTypes: EvalexprNumericTypes> Token<NumericTypes> {
     #[cfg(not(tarpaulin_include))]
     pub(crate) const fn is_leftsided_value(&self) -> bool {
